@@ -66,6 +66,7 @@ type ByzHost struct {
 	Applied  bool   // the mutation's message was reached
 	Differs  bool   // the mutated bytes differ from the honest ones
 	Harness  string // harness-side problem (unknown kind, ...)
+	GenericN int    // number of leaves / slices the generic mutation could choose from
 
 	done chan struct{}
 }
@@ -180,7 +181,12 @@ func (h *ByzHost) emit(s net.Conn, idx int, msg proto4.Object, mutate func(kind 
 			h.record(idx, honest, nil, nil, true)
 			return errStop
 		default:
-			if mutate == nil || !mutate(h.M.Kind) {
+			if IsGeneric(h.M.Kind) {
+				n := genericMutate(msg, h.M.Kind, h.M.A, h.M.B)
+				h.mu.Lock()
+				h.GenericN = n
+				h.mu.Unlock()
+			} else if mutate == nil || !mutate(h.M.Kind) {
 				h.harness(fmt.Sprintf("ByzHost: unknown mutation %q for message %d (%T)", h.M.Kind, idx, msg))
 			}
 			wire = encodeResp(msg)
@@ -1455,7 +1461,7 @@ func cat(lists ...[]string) []string {
 }
 
 // Generic families valid for every typed message.
-var genericKinds = []string{"rpc-error", "close"}
+var genericKinds = append([]string{"rpc-error", "close"}, GenericKinds...)
 
 // Kinds lists, per client function and per host->renter message, the
 // mutation families the ByzHost knows.
